@@ -40,6 +40,48 @@ theorem bulkLoop_eq_runBytes {S B O : Type} (iter : S → List B → S × List O
         rw [runBytes_append, hk s b bs hz]
 open ArrowModel.Generated.C14
 variable {P O : Type}
+/-- every source item the models were written against (constants, guard conditions, statement
+order of the copy / scan arms) is still found in /repo by `tools/translate.py`; an edit of one
+of those expressions makes the item LOST and this lemma — and with it every obligation — fail -/
+theorem c14_ties_intact :
+    IPC_MARKER_BYTE_lost = false ∧
+    IPC_MARKER_LEN_lost = false ∧
+    IPC_HEADER_LEN_lost = false ∧
+    IPC_HEADER_FULL_lost = false ∧
+    IPC_MSG_SLICE_START_lost = false ∧
+    IPC_BODY_SLICE_START_lost = false ∧
+    IPC_HEADER_COPY_FROM_lost = false ∧
+    IPC_FINISH_OK_READ_lost = false ∧
+    IPC_EOS_SIZE_lost = false ∧
+    JSON_NUMBER_CLOSE_lost = false ∧
+    JSON_BATCH_STOP_lost = false ∧
+    JSON_STRING_SCAN_lost = false ∧
+    JSON_UNICODE_HIGH_LAST_lost = false ∧
+    JSON_UNICODE_LOW_LAST_lost = false ∧
+    JSON_LITERAL_RESUME_lost = false ∧
+    CSV_RECORD_DONE_lost = false ∧
+    CSV_FLUSH_PARTIAL_GUARD_lost = false ∧
+    CSV_TO_READ_lost = false ∧
+    CSV_BUFREADER_STOP_lost = false ∧
+    AVRO_DATA_COPY_lost = false ∧
+    AVRO_SYNC_COPY_lost = false ∧
+    VLQ_ZIGZAG_SHIFT_lost = false ∧
+    AVRO_SYNC_LEN_lost = false ∧
+    AVRO_SYNC_REMAINING_lost = false ∧
+    AVRO_SYNC_OFFSET_BASE_lost = false ∧
+    VLQ_MAX_SHIFT_lost = false ∧
+    VLQ_LAST_LIMIT_lost = false ∧
+    VLQ_PAYLOAD_MASK_lost = false ∧
+    VLQ_SHIFT_STEP_lost = false ∧
+    VLQ_CONT_BIT_lost = false := by decide
+
+/-- the values the shape items carry, as the models use them -/
+theorem c14_shape_values :
+    JSON_NUMBER_CLOSE = 1 ∧ JSON_BATCH_STOP = 1 ∧ JSON_STRING_SCAN = 1 ∧ JSON_UNICODE_HIGH_LAST = 3 ∧
+    JSON_UNICODE_LOW_LAST = 9 ∧ JSON_LITERAL_RESUME = 1 ∧ CSV_RECORD_DONE = 1 ∧ CSV_FLUSH_PARTIAL_GUARD = 0 ∧
+    CSV_TO_READ = 0 ∧ CSV_BUFREADER_STOP = 0 ∧ AVRO_DATA_COPY = 0 ∧ AVRO_SYNC_COPY = 0 ∧ VLQ_ZIGZAG_SHIFT = 1 ∧
+    IPC_FINISH_OK_READ = 0 ∧ IPC_EOS_SIZE = 0 := by decide
+
 theorem ipc_header_consts : IPC_HEADER_LEN = IPC_HEADER_FULL := by decide
 
 /-- the zero-copy slices start at offset 0 of the chunk (regenerated together with their guards) -/
